@@ -298,10 +298,27 @@ pub fn write_temp_reused(bytes: &[u8], tag: &str) -> PathBuf {
     p
 }
 
+/// Write to `<scratch>/<tag>-<n>/voice.htsvoice`: every file has the SAME file name and its own
+/// directory (exposes anything keyed by the file name instead of the path).
+pub fn write_temp_same_name(bytes: &[u8], tag: &str) -> PathBuf {
+    static N: AtomicU64 = AtomicU64::new(0);
+    let n = N.fetch_add(1, Ordering::Relaxed);
+    let d = scratch_dir().join(format!("{}-dir-{}", tag, n));
+    std::fs::create_dir_all(&d).expect("scratch dir must be writable");
+    let p = d.join("voice.htsvoice");
+    std::fs::write(&p, bytes).expect("scratch dir must be writable");
+    p
+}
+
 pub struct TempVoice(pub PathBuf);
 impl Drop for TempVoice {
     fn drop(&mut self) {
         let _ = std::fs::remove_file(&self.0);
+        if self.0.file_name().map(|n| n == "voice.htsvoice").unwrap_or(false) {
+            if let Some(d) = self.0.parent() {
+                let _ = std::fs::remove_dir(d);
+            }
+        }
     }
 }
 
